@@ -5,7 +5,9 @@ package service
 
 import (
 	"net"
+	"os"
 	"sync"
+	"syscall"
 	"time"
 
 	"github.com/Jigsaw-Code/outline-sdk/transport"
@@ -13,16 +15,17 @@ import (
 
 // blocking packet socket built on channels
 type verifChanPC struct {
-	in       chan verifRead
-	closedCh chan struct{}
-	expireCh chan struct{} // nil = never
-	mu       sync.Mutex
-	closed   int
-	local    net.Addr
-	onClose  func() // native barrier hook for lock-order replays
-	reads    int
-	gen      int
-	expired  bool
+	in         chan verifRead
+	closedCh   chan struct{}
+	expireCh   chan struct{} // nil = never
+	mu         sync.Mutex
+	closed     int
+	local      net.Addr
+	onClose    func() // native barrier hook for lock-order replays
+	afterClose func() // runs when the socket has just been closed
+	reads      int
+	gen        int
+	expired    bool
 }
 
 func (c *verifChanPC) ReadFrom(p []byte) (int, net.Addr, error) {
@@ -47,24 +50,40 @@ func (c *verifChanPC) Closed() int {
 }
 
 // Expire makes pending and later reads time out (the read deadline passed)
-func (c *verifChanPC) Expire()                                      { close(c.expireCh) }
+func (c *verifChanPC) Expire() {
+	c.mu.Lock()
+	if !c.expired {
+		c.expired = true
+		close(c.expireCh)
+	}
+	c.mu.Unlock()
+}
 func (c *verifChanPC) WriteTo(p []byte, addr net.Addr) (int, error) { return len(p), nil }
 func (c *verifChanPC) Close() error {
 	if c.onClose != nil {
 		c.onClose()
 	}
 	c.mu.Lock()
-	defer c.mu.Unlock()
 	c.closed++
-	if c.closed > 1 {
+	n := c.closed
+	if n == 1 {
+		close(c.closedCh)
+	}
+	c.mu.Unlock()
+	if c.afterClose != nil {
+		c.afterClose()
+	}
+	if n > 1 {
 		return net.ErrClosed
 	}
-	close(c.closedCh)
 	return nil
 }
 func (c *verifChanPC) LocalAddr() net.Addr            { return c.local }
 func (c *verifChanPC) SetDeadline(t verifTimeT) error { return nil }
 func (c *verifChanPC) SetReadDeadline(t verifTimeT) error {
+	if c.Closed() > 0 {
+		return net.ErrClosed
+	}
 	// a deadline that has already passed makes pending and later reads time out
 	if c.expireCh != nil && !t.IsZero() && !t.After(time.Now()) {
 		c.mu.Lock()
@@ -88,7 +107,7 @@ func verifListenSharedPacket(address string) (net.PacketConn, error) {
 	verifPCMu.Lock()
 	defer verifPCMu.Unlock()
 	if pc, ok := verifBoundPC[address]; ok && pc.closed == 0 {
-		return nil, errVerifFault // address already in use
+		return nil, &net.OpError{Op: "listen", Net: "udp", Err: os.NewSyscallError("bind", syscall.EADDRINUSE)}
 	}
 	verifPacketGen[address]++
 	pc := &verifChanPC{in: make(chan verifRead), closedCh: make(chan struct{}), local: &net.UDPAddr{IP: net.IPv4(127, 0, 0, 1), Port: 9000}, onClose: verifBoundPCHook, gen: verifPacketGen[address]}
@@ -731,4 +750,148 @@ func verifInjectAll(pc *verifChanPC, n int, from net.Addr) {
 	for i := 0; i < n; i++ {
 		verifInject(pc, []byte{byte(i + 1), byte(i + 1)}, from) // no pause between datagrams
 	}
+}
+
+// C13: closing a handle several times and using it afterwards always returns
+func VH_C13_repeated_close() {
+	lm := NewListenerManager()
+	h, err := lm.ListenStream("127.0.0.1:0")
+	verifAssert("C13.repeated-close.listen", err == nil)
+	done := make(chan int, 8)
+	go func() {
+		h.Close()
+		done <- 1
+		h.Close()
+		done <- 2
+		h.Close()
+		done <- 3
+		_, err := h.AcceptStream()
+		verifAssert("C13.repeated-close.accept-errclosed", err == net.ErrClosed)
+		done <- 4
+		h.Close()
+		done <- 5
+	}()
+	verifQuiesce()
+	verifAssert("C13.repeated-close.all-calls-return", len(done) == 5)
+	verifReach("C13.repeated-close.done", true)
+}
+
+// C13: stream and packet listeners of one address are independent in the manager: releasing
+// one kind leaves the other usable and shareable
+func VH_C13_stream_and_packet_same_address() {
+	delete(verifBoundPC, "127.0.0.1:9304")
+	lm := NewListenerManager()
+	s1, err := lm.ListenStream("127.0.0.1:9304")
+	verifAssert("C13.both-kinds.stream", err == nil)
+	p1, err := lm.ListenPacket("127.0.0.1:9304")
+	verifAssert("C13.both-kinds.packet", err == nil)
+	which := verifChoice("release", 2)
+	if which == 0 {
+		verifAssert("C13.both-kinds.packet-close", p1.Close() == nil)
+		s2, err := lm.ListenStream("127.0.0.1:9304") // must share the socket that is still open
+		verifAssert("C13.both-kinds.stream-still-shareable", err == nil)
+		if err == nil {
+			s2.Close()
+		}
+		s1.Close()
+	} else {
+		verifAssert("C13.both-kinds.stream-close", s1.Close() == nil)
+		p2, err := lm.ListenPacket("127.0.0.1:9304")
+		verifAssert("C13.both-kinds.packet-still-shareable", err == nil)
+		if err == nil {
+			p2.Close()
+		}
+		p1.Close()
+	}
+	verifQuiesce()
+	// everything released: both kinds can be listened on again
+	s3, err1 := lm.ListenStream("127.0.0.1:9304")
+	p3, err2 := lm.ListenPacket("127.0.0.1:9304")
+	verifAssert("C13.both-kinds.usable-afterwards", err1 == nil && err2 == nil)
+	if err1 == nil {
+		s3.Close()
+	}
+	if err2 == nil {
+		p3.Close()
+	}
+	verifQuiesce()
+	verifReach("C13.both-kinds.done", true)
+}
+
+// C12: a new handle is acquired at the very moment the last other handle closes: the new handle
+// is open, so connections and datagrams keep being delivered to it
+func VH_C12_acquire_vs_last_close() {
+	verifSched(2)
+	for rep := 0; rep < verifRepeat(2000); rep++ {
+		closes := 0
+		ml := NewMultiStreamListener("127.0.0.1:0", func() error { closes++; return nil })
+		h1, err := ml.Acquire()
+		verifAssert("C12.acquire-vs-close.first", err == nil)
+		var h2 StreamListener
+		var err2 error
+		verifParStart(make(chan struct{}),
+			func() { h1.Close() },
+			func() { h2, err2 = ml.Acquire() },
+		)
+		verifSched(0) // the interleavings of interest are over
+		verifAssert("C12.acquire-vs-close.acquired", err2 == nil && h2 != nil)
+		if err2 != nil || h2 == nil {
+			continue
+		}
+		r := verifAcceptAsync(h2)
+		id := verifDialTCP(h2.Addr())
+		verifAssert("C12.acquire-vs-close.not-refused", id >= 0)
+		verifQuiesce()
+		verifAssert("C12.acquire-vs-close.delivered-to-the-open-handle", len(r) == 1)
+		if len(r) == 1 {
+			a := <-r
+			verifAssert("C12.acquire-vs-close.delivered-intact", a.err == nil && a.conn != nil)
+			if a.conn != nil {
+				a.conn.Close()
+			}
+		}
+		h2.Close()
+		verifQuiesce()
+		verifAssert("C12.acquire-vs-close.nothing-running", verifBlockedIn(verifAcceptLoop) == 0)
+	}
+	verifReach("C12.acquire-vs-close.done", true)
+}
+
+func VH_C12_acquire_vs_last_close_packet() {
+	verifSched(2)
+	for rep := 0; rep < verifRepeat(2000); rep++ {
+		delete(verifBoundPC, "127.0.0.1:9305")
+		ml := NewMultiPacketListener("127.0.0.1:9305", func() error { return nil })
+		h1, err := ml.Acquire()
+		verifAssert("C12.acquire-vs-close-packet.first", err == nil)
+		var h2 net.PacketConn
+		var err2 error
+		verifParStart(make(chan struct{}),
+			func() { h1.Close() },
+			func() { h2, err2 = ml.Acquire() },
+		)
+		verifSched(0)
+		verifAssert("C12.acquire-vs-close-packet.acquired", err2 == nil && h2 != nil)
+		if err2 != nil || h2 == nil {
+			continue
+		}
+		verifPCMu.Lock()
+		pc := verifBoundPC["127.0.0.1:9305"]
+		verifPCMu.Unlock()
+		verifAssert("C12.acquire-vs-close-packet.socket-open", pc != nil && pc.Closed() == 0)
+		if pc != nil && pc.Closed() == 0 {
+			r := verifReadAsync(h2)
+			verifInject(pc, []byte{1, 2, 3}, &net.UDPAddr{IP: net.IPv4(203, 0, 113, 5), Port: 4000})
+			verifQuiesce()
+			verifAssert("C12.acquire-vs-close-packet.delivered-to-the-open-handle", len(r) == 1)
+			if len(r) == 1 {
+				p := <-r
+				verifAssert("C12.acquire-vs-close-packet.delivered-intact", p.err == nil && p.n == 3)
+			}
+		}
+		h2.Close()
+		verifQuiesce()
+		verifAssert("C12.acquire-vs-close-packet.nothing-running", verifBlockedIn(verifReadLoop) == 0)
+	}
+	verifReach("C12.acquire-vs-close-packet.done", true)
 }
